@@ -34,6 +34,7 @@ RELATED = {
     'C01_k': ['C01'], 'C05_k': ['C05'], 'C06_k': ['C06'], 'C07_k': ['C07'], 'C09_k': ['C09'], 'C10_k': ['C10'], 'C13_k': ['C13'], 'C17_k': ['C17'],
     'C18_k': ['C18'], 'C19_k': ['C19'],
     'C02_l': ['C02'], 'C03_l': ['C03'], 'C04_l': ['C04'], 'C08_l': ['C08'], 'C12_l': ['C12'], 'C16_l': ['C16'],
+    'C11_m': ['C11'], 'C14_m': ['C14'], 'C17_m': ['C17'],
     'C01_c': ['C01', 'C12'], 'C16_c': ['C16'], 'C17_c': ['C17'], 'C18_c': ['C18', 'C13'], 'C19_c': ['C19', 'C03'], 'C20_c': ['C20'],
 }
 
